@@ -112,7 +112,9 @@ static tis::Scenario make_pop(Rng& g, int iterations, bool few_face_types_epithe
     for (size_t k = 0; k < pos.size() && (int)k < ndoom; k++) role[pos[k]] = 2 + (int)(k % 3);
     for (int i = 0; i < n; i++) if (role[i] == 0) { double u = g.uni(); role[i] = u < 0.45 ? 1 : u < 0.85 ? 0 : u < 0.93 ? 5 : 6; }
     int idx = 0;
-    for (int i = 0; i < nx; i++) for (int j = 0; j < ny; j++, idx++) s.cells.push_back({tis::sphere(r, i * (2 * r + gap), j * (2 * r + gap), 0, g), role[idx]});
+    for (int i = 0; i < nx; i++) for (int j = 0; j < ny; j++, idx++) { // a fifth of the cells come with a mesh much finer than the band: the first refinement passes collapse most of their edges, leaving more unused than used slots
+        const int level = g.coin(0.2) ? (g.coin(0.3) ? 4 : 3) : 2; if (level > 2) s.family = "population_with_fine_meshes";
+        s.cells.push_back({tis::sphere(r, i * (2 * r + gap), j * (2 * r + gap), 0, g, level), role[idx]}); }
     s.P.simulation_duration_ = (iterations - 0.5) * s.P.time_step_; s.P.sampling_period_ = 20 * s.P.time_step_;
     return s;
 }
